@@ -51,6 +51,19 @@ pub struct PoolEntry {
 impl Ctx {
 	/// Record one request, the implementation's answer, and which stream/type produced it.
 	pub fn emit(&mut self, stream: &str, ty_name: &str, req: &str, ans: &str) {
+		// an answer longer than anything the unchanged crate produces is cut (and thereby differs
+		// from the model's answer): the output files stay bounded whatever the code under test does
+		let cut;
+		let ans = if ans.len() > crate::modeled::VAL_TEXT_CAP {
+			let mut e = 200;
+			while !ans.is_char_boundary(e) {
+				e -= 1;
+			}
+			cut = format!("{} ...answer of {} bytes cut", &ans[..e], ans.len());
+			&cut[..]
+		} else {
+			ans
+		};
 		writeln!(self.req, "{}", req).unwrap();
 		writeln!(self.ans, "{}", ans).unwrap();
 		writeln!(self.meta, "{}\t{}", stream, ty_name).unwrap();
